@@ -222,6 +222,38 @@ class Repo:
                     m.assigns.setdefault(t.id, []).append(st.value)
                 elif isinstance(t, ast.Attribute) and isinstance(t.value, ast.Name) and t.value.id in m.classes:
                     self.patched.add((m.classes[t.value.id].qual, t.attr))
+                elif isinstance(t, (ast.Tuple, ast.List)):
+                    # a, b = x, y at module level: every name gets its own entry; from anything other than a display
+                    # of the same length the names are bound to the positions of the value
+                    names = [e for e in t.elts]
+                    if all(isinstance(e, ast.Name) for e in names):
+                        flat = isinstance(st.value, (ast.Tuple, ast.List)) and len(st.value.elts) == len(names) and \
+                            not any(isinstance(e, ast.Starred) for e in st.value.elts)
+                        for k_, e in enumerate(names):
+                            if e.id in m.functions or e.id in m.classes:
+                                m.rebound.add(e.id)
+                            if flat:
+                                node = st.value.elts[k_]
+                            else:
+                                node = ast.Subscript(value=st.value, slice=ast.Constant(value=k_), ctx=ast.Load())
+                                ast.copy_location(node, st.value)
+                                ast.copy_location(node.slice, st.value)
+                                node.end_lineno, node.end_col_offset = st.value.end_lineno, st.value.end_col_offset
+                            m.assigns.setdefault(e.id, []).append(node)
+                    else:
+                        for e in ast.walk(t):
+                            if isinstance(e, ast.Name):
+                                m.rebound.add(e.id)         # starred / nested targets: not followed
+        elif isinstance(st, (ast.For, ast.AsyncFor, ast.With, ast.AugAssign, ast.Delete)):
+            # names bound (or rebound) at module level by a loop, a with block, an augmented assignment or del: what
+            # they hold is not followed - a read of such a name is refused, never answered from an earlier binding
+            tg = [st.target] if isinstance(st, (ast.For, ast.AsyncFor, ast.AugAssign)) else \
+                [i.optional_vars for i in st.items if i.optional_vars is not None] if isinstance(st, ast.With) else \
+                list(st.targets)
+            for t in tg:
+                for e in ast.walk(t):
+                    if isinstance(e, ast.Name) and isinstance(e.ctx, (ast.Store, ast.Del)):
+                        m.rebound.add(e.id)
         elif isinstance(st, ast.Expr) and isinstance(st.value, ast.Call) \
                 and isinstance(st.value.func, ast.Attribute) and st.value.func.attr == 'update' \
                 and isinstance(st.value.func.value, ast.Name) and len(st.value.args) == 1 \
